@@ -819,6 +819,167 @@ def gen_chain(rng):
             "fault": fault, "where": where, "top": top}
 
 
+# array-indexed references: %(v)s[3] / %(v)s[%(i)s] ------------------------------------------------------
+
+ARRAY_WORDS = ["h4t4", "h6t5", "h8t5", "c60", "x1", "x2", "0.5", "w-a", "w_b", "7", "True", "p/q", "a=b", "z9",
+               "m.n", "k:v"]
+ARRAY_TEXTS = [" ", " --all ", " --mine ", " => ", ":", "", "/", " -n", "x", "=", ", ", " run "]
+
+
+def render_segs(segs):
+    """the text of a list of occurrences: ["t", text] | ["r", name] | ["i", name, n] | ["v", name, index-name]"""
+    out = []
+    for g in segs:
+        if g[0] == "t":
+            out.append(g[1])
+        elif g[0] == "r":
+            out.append("%%(%s)s" % g[1])
+        elif g[0] == "i":
+            out.append("%%(%s)s[%d]" % (g[1], g[2]))
+        else:
+            out.append("%%(%s)s[%%(%s)s]" % (g[1], g[2]))
+    return "".join(out)
+
+
+def spec_segs(segs, variables):
+    """'layer, then substitute' for a text given as its occurrences: every occurrence is replaced by the value of
+    its variable (plain) / by the n-th blank-separated word of that value (indexed); None = some variable is
+    undefined / the index is not a position of the array"""
+    out = []
+    for g in segs:
+        if g[0] == "t":
+            out.append(g[1])
+            continue
+        val = spec_substitute("%%(%s)s" % g[1], variables)
+        if val is None:
+            return None
+        if g[0] == "r":
+            out.append(val)
+            continue
+        if g[0] == "i":
+            n = g[2]
+        else:
+            idx = spec_substitute("%%(%s)s" % g[2], variables)
+            if idx is None or not idx.strip().isdigit():
+                return None
+            n = int(idx)
+        words = val.split()
+        if n >= len(words):
+            return None
+        out.append(words[n])
+    return "".join(out)
+
+
+def gen_segs(rng, arrays, indices, sizes, shape=None):
+    """2-5 occurrences over the array variables `arrays` (index variables `indices`, every array has at least
+    sizes[name] words on every layer) separated by constant texts; shapes: plain-then-indexed (the same variable
+    first plainly, later with an index), indexed-then-plain, only-plain, only-indexed, mixed"""
+    shape = shape or rng.choice(["plain-then-indexed", "plain-then-indexed", "indexed-then-plain", "only-plain",
+                                 "only-indexed", "mixed", "mixed"])
+
+    def indexed(name):
+        if indices and rng.random() < 0.5:
+            return ["v", name, rng.choice(indices)]
+        return ["i", name, rng.randrange(sizes[name])]
+
+    a = rng.choice(arrays)
+    if shape == "plain-then-indexed":
+        occ = [["r", a]] * rng.randint(1, 2) + [indexed(a)] + ([["r", a]] if rng.random() < 0.3 else [])
+    elif shape == "indexed-then-plain":
+        occ = [indexed(a)] + [["r", a]] * rng.randint(1, 2)
+    elif shape == "only-plain":
+        occ = [["r", rng.choice(arrays)] for _ in range(rng.randint(2, 3))]
+    elif shape == "only-indexed":
+        occ = [indexed(rng.choice(arrays)) for _ in range(rng.randint(1, 3))]
+    else:
+        occ = [rng.choice([["r", n], indexed(n)]) for n in (rng.choice(arrays) for _ in range(rng.randint(2, 5)))]
+    segs = [["t", rng.choice(["", "", "--x ", "run ", "a "])]]
+    for k, o in enumerate(occ):
+        segs.append(list(o))
+        segs.append(["t", rng.choice(ARRAY_TEXTS) if k + 1 < len(occ) else rng.choice(["", "", " end", "/q"])])
+    return shape, segs
+
+
+def gen_array(rng):
+    """array variables (blank separated words; 2-4 or 11-13 of them; possibly built from another variable) and
+    integer index variables defined by random subsets of the variable layers with DIFFERENT values per layer,
+    used from the component's arguments / another option and from a variable of the component, plainly and with
+    literal / variable indices in every order"""
+    platform = rng.choice(["default", "p"])
+    stage = rng.choice([0, 1])
+    doc = base_doc()
+    user = new_user_files()
+    tags = ["DG", "DS", "U", "US", "V", "VS", "C"] + (["PG", "PS", "O"] if platform == "p" else [])
+    arrays, sizes = ["arr"] + (["mol"] if rng.random() < 0.5 else []), {}
+    for name in arrays:
+        big = rng.random() < 0.25
+        sizes[name] = 11 if big else 2
+        for tag in rng.sample(tags, rng.randint(1, 3)):
+            words = rng.sample(ARRAY_WORDS, rng.randint(11, 13) if big else rng.randint(2, 4))
+            value = rng.choice([" ", " ", "  "]).join(words)
+            if rng.random() < 0.3 and len(words) > 2:
+                # a chain: part of the array comes from another variable (defined in the lowest layer)
+                base = "base_" + name
+                variable_target(doc, user, "DG", stage, stage)[base] = " ".join(words[:2])
+                value = "%%(%s)s %s" % (base, " ".join(words[2:]))
+            variable_target(doc, user, tag, stage, stage)[name] = value
+        for tag in rng.sample(FOREIGN, rng.randint(0, 2)):
+            variable_target(doc, user, tag, stage, stage)[name] = "leak0 leak1 leak2 leak3 leak4 leak5 leak6 leak7 leak8 leak9 leak10 leak11"
+    indices = []
+    for name in rng.sample(["which", "idx"], rng.randint(0, 2)):
+        indices.append(name)
+        top = min(sizes.values())
+        for tag in rng.sample(tags, rng.randint(1, 3)):
+            variable_target(doc, user, tag, stage, stage)[name] = rng.randrange(top)
+        if rng.random() < 0.25:
+            # the index through a chain
+            variable_target(doc, user, "DG", stage, stage)["n_" + name] = rng.randrange(top)
+            variable_target(doc, user, rng.choice(tags), stage, stage)[name] = "%%(n_%s)s" % name
+    fault = rng.choice(["none"] * 8 + ["undefined-array", "undefined-index"])
+    shape, segs = gen_segs(rng, arrays, indices, sizes)
+    if fault == "undefined-array":
+        segs += [["i", "nowhere", 0], ["t", ""]]
+    elif fault == "undefined-index":
+        segs += [["v", arrays[0], "nowhere"], ["t", ""]]
+    where = rng.choice(["arguments", "arguments", "queue", "list"])
+    comp = doc["components"][stage]
+    top = render_segs(segs)
+    if where == "arguments":
+        comp["command"]["arguments"] = top
+    elif where == "queue":
+        comp.setdefault("resourceManager", {}).setdefault("lsf", {})["queue"] = top
+    else:
+        comp["references"] = []
+        comp.setdefault("workflowAttributes", {})["shutdownOn"] = ["KnownIssue", top]
+    vshape, vsegs = None, None
+    if rng.random() < 0.6:
+        # a variable of the component itself built the same way (it may be used by the arguments too)
+        vshape, vsegs = gen_segs(rng, arrays, indices, sizes)
+        variable_target(doc, user, "O" if platform == "p" and rng.random() < 0.4 else "C", stage, stage)["report"] = \
+            render_segs(vsegs)
+        if where != "arguments":
+            comp["command"]["arguments"] = "report: %(report)s."
+    maybe_confify(rng, user)
+    user = trim_user_files(user)
+    return {"kind": "array", "doc": doc, "user": user, "platform": platform, "stage": stage, "prim": False,
+            "fault": fault, "where": where, "top": top, "segs": segs, "shape": shape, "vsegs": vsegs,
+            "vshape": vshape}
+
+
+def expected_array(case):
+    """(expected text of the option that holds `top`, expected value of the variable `report` or None,
+    expected arguments when they quote the variable or None) by layering the variables of the ORIGINAL document
+    in the documented order and replacing every occurrence by its own value"""
+    comp = case["doc"]["components"][case["stage"]]
+    variables = layered_variables(case["doc"], case["user"], case["platform"], comp)
+    top = spec_segs(case["segs"], variables)
+    report = spec_segs(case["vsegs"], variables) if case.get("vsegs") else None
+    quoted = None
+    if case.get("vsegs") and case["where"] != "arguments" and report is not None:
+        quoted = "report: %s." % report
+    return top, report, quoted
+
+
 SIB_NAMES = ["alpha", "beta", "gamma", "delta", "c0", "c1", "s0", "zeta9", "a", "b"]
 SIB_STAGES = [0, 1, 0, 1, 2, 10, 11]
 
@@ -1280,6 +1441,27 @@ def judge_answer(ctx, case, out, table, mout=None, view=None):
         elif fault in ("incomplete", "invalid"):
             if "ok" in out:
                 fail("malformed-reference-accepted", out)
+    elif kind == "array":
+        top, report, quoted = expected_array(case)
+        if case["fault"] != "none":
+            if "ok" in out:
+                fail("undefined-variable-not-reported",
+                     {"text": case["top"], "got": locate_top(out["ok"], case["where"])})
+        elif "ok" not in out:
+            fail("resolution-of-well-formed-layers-fails", out)
+        else:
+            got = locate_top(out["ok"], case["where"])
+            if top is not None and got != top:
+                fail("substitution-result-differs-from-specification",
+                     {"text": case["top"], "expected": top, "got": got})
+            gotv = (out["ok"].get("variables") or {}).get("report", "<absent>")
+            if report is not None and gotv != report:
+                fail("substitution-result-differs-from-specification",
+                     {"variable": "report", "text": render_segs(case["vsegs"]), "expected": report, "got": gotv})
+            if quoted is not None and out["ok"]["command"].get("arguments") != quoted:
+                fail("substitution-result-differs-from-specification",
+                     {"text": "report: %(report)s.", "expected": quoted,
+                      "got": out["ok"]["command"].get("arguments")})
     elif kind in ("siblings", "stages"):
         exp = expected_sibling(case)
         if exp is None:
@@ -1375,6 +1557,7 @@ def run_cases(ctx, cases, tmpdir, table):
                                      inject=FLAT_MODES[v[0]][1], fuel=FUEL))
         plans.append(plan)
     mouts = ctx.model(reqs) if reqs else []
+    array_round = []
     for case, plan in zip(cases, plans):
         if plan is None:
             continue
@@ -1395,6 +1578,14 @@ def run_cases(ctx, cases, tmpdir, table):
             tags.append("fault:" + case["fault"])
         elif kind == "structural":
             tags.append("structural:" + case["what"])
+        elif kind == "array":
+            tags += ["fault:" + case["fault"], "array-shape:" + case["shape"], "array-where:" + case["where"]]
+            if case.get("vshape"):
+                tags.append("array-variable-shape:" + case["vshape"])
+            if any(g[0] == "v" for g in case["segs"] + (case.get("vsegs") or [])):
+                tags.append("array-index-from-variable")
+            if any(g[0] == "i" and g[2] >= 10 for g in case["segs"] + (case.get("vsegs") or [])):
+                tags.append("array-index>=10")
         for view, ans, _, err in plan["views"]:
             tags.append("view:%s:%s" % (view, "unavailable:" + err["error"] if ans is None else
                                         "ok" if "ok" in ans else ans["error"]))
@@ -1420,6 +1611,10 @@ def run_cases(ctx, cases, tmpdir, table):
         if mout is None:
             continue
         mres = mout["result"]
+        if kind == "array" and flags is None and isinstance(mout.get("vars"), dict):
+            # the resolver of the model stops at `[`: the texts with array accesses are resolved by Tree.interpA
+            # (Model/TreeArray.lean) over the variables the model layered for this component
+            array_round.append((slim, mout["vars"], out))
         if mres.get("error") == "unsupported":
             ctx.tag("model:unsupported")
             continue
@@ -1450,6 +1645,40 @@ def run_cases(ctx, cases, tmpdir, table):
                 continue
             ctx.compare(VIEW_REL, dict(slim, view=view), coarse_error(without_override(strict)),
                         coarse_error(without_override(ans)))
+
+    if array_round:
+        reqs2, plan2 = [], []
+        for slim, mvars, out in array_round:
+            texts = [("top", slim["top"])]
+            if slim.get("vsegs"):
+                texts.append(("report", render_segs(slim["vsegs"])))
+            for label, text in texts:
+                plan2.append((slim, label, text, out))
+                reqs2.append({"op": "interpA", "ctx": mvars, "s": text, "fuel": FUEL})
+        mouts2 = ctx.model(reqs2)
+        for (slim, label, text, out), mo in zip(plan2, mouts2 or []):
+            if mo.get("error") == "unsupported":
+                ctx.tag("model:interpA-unsupported")
+                continue
+            if "ok" in out:
+                got = {"ok": locate_top(out["ok"], slim["where"]) if label == "top" else
+                       (out["ok"].get("variables") or {}).get("report")}
+            elif slim["fault"] == "none":
+                got = out
+            else:
+                # the injected fault sits in `top`; which text is resolved first is not the property's business
+                got = mo if "error" in mo else out
+            ctx.compare("text of get_component_configuration == Tree.interpA over Tree.varsOf",
+                        dict(slim, text=label), coarse_error(array_error(mo)), coarse_error(array_error(got)))
+
+
+def array_error(a):
+    """errors of array accesses: the undefined index variable is a ValueError in the code"""
+    if isinstance(a, dict) and a.get("error") in ("other:ValueError", "unknown-variable"):
+        return {"error": "resolution-error"}
+    if isinstance(a, dict) and a.get("error") in ("other:IndexError", "key-error"):
+        return {"error": "index-error"}
+    return a
 
 
 def view_differs_legitimately(case, strict, ans):
@@ -2117,6 +2346,67 @@ def unit_interp(ctx, rng, n):
                 continue
             ctx.compare("FlowIR.interpolate == Tree.interp", case, mo, out)
 
+def array_unit_case(rng):
+    """FlowIR.interpolate itself on a text with plain and array-indexed references over a flat context"""
+    ctxv, sizes = {}, {}
+    arrays = rng.sample(["a", "b", "arr", "m-1", "a_b"], rng.randint(1, 3))
+    for name in arrays:
+        big = rng.random() < 0.2
+        words = rng.sample(ARRAY_WORDS, rng.randint(11, 13) if big else rng.randint(1, 4))
+        sizes[name] = len(words)
+        ctxv[name] = rng.choice([" ", "  ", "\t"]).join(words)
+        if rng.random() < 0.25 and len(words) > 1:
+            ctxv["base"] = words[0]
+            ctxv[name] = "%(base)s " + " ".join(words[1:])
+        elif rng.random() < 0.1:
+            ctxv[name], sizes[name] = rng.choice([7, True, 2.5]), 1
+    indices = rng.sample(["i", "j", "which"], rng.randint(0, 2))
+    for name in indices:
+        ctxv[name] = rng.choice([int, str, lambda n: "%(n0)s"])(rng.randrange(min(sizes.values())))
+        if ctxv[name] == "%(n0)s":
+            ctxv["n0"] = rng.randrange(min(sizes.values()))
+    shape, segs = gen_segs(rng, arrays, indices, sizes)
+    fault = rng.choice(["none"] * 8 + ["out-of-range", "undefined-array", "undefined-index"])
+    if fault == "out-of-range":
+        segs += [["t", " "], ["i", arrays[0], sizes[arrays[0]] + rng.randrange(3)], ["t", ""]]
+    elif fault == "undefined-array":
+        segs += [["t", " "], rng.choice([["i", "nowhere", 0], ["r", "nowhere"]]), ["t", ""]]
+    elif fault == "undefined-index":
+        segs += [["t", " "], ["v", arrays[0], "nowhere"], ["t", ""]]
+    return {"kind": "interpA", "ctx": to_json(ctxv), "segs": segs, "s": render_segs(segs), "shape": shape,
+            "fault": fault}
+
+
+def unit_array(ctx, rng, n, given=None):
+    F = _F()
+    cases = given if given is not None else [array_unit_case(rng) for _ in range(n)]
+    mouts = ctx.model([{"op": "interpA", "ctx": c["ctx"], "s": c["s"], "fuel": FUEL} for c in cases])
+    for case, mo in zip(cases, mouts or [None] * len(cases)):
+        ctxv = from_json(case["ctx"])
+        try:
+            out = {"ok": F.FlowIR.interpolate(case["s"], copy.deepcopy(ctxv))}
+        except BaseException as exc:
+            if isinstance(exc, (KeyboardInterrupt, SystemExit)):
+                raise
+            out = err_kind(exc)
+        ctx.case(case, nontrivial=sum(1 for g in case["segs"] if g[0] != "t") >= 2,
+                 tags=["kind:interpA", "interpA:" + ("ok" if "ok" in out else out["error"]),
+                       "array-shape:" + case["shape"], "fault:" + case["fault"]])
+        exp = spec_segs(case["segs"], ctxv)
+        if case["fault"] == "none":
+            if out != {"ok": exp}:
+                ctx.fail("substitution-result-differs-from-specification", case,
+                         {"text": case["s"], "expected": exp, "got": out})
+        elif case["fault"] in ("undefined-array", "undefined-index") and "ok" in out:
+            ctx.fail("undefined-variable-not-reported", case, {"text": case["s"], "got": out})
+        if mo is not None:
+            if mo.get("error") == "unsupported":
+                ctx.tag("model:interpA-unsupported")
+                continue
+            ctx.compare("FlowIR.interpolate == Tree.interpA", case, coarse_error(array_error(mo)),
+                        coarse_error(array_error(out)))
+
+
 def gen_variable_file(rng, names):
     """one variable file: optional global section, sections for some of the stages 0, 1, 2, 10, 11; scalars of
     every admitted kind; sections may be missing or empty"""
@@ -2370,9 +2660,21 @@ def run(ctx):
                 "'last file wins per scope'. (p) conf-loader: read_user_variables on .conf files with sections "
                 "for a subset of the stages 0-13 in mixed spellings (12% with one malformed section name) == "
                 "Tree.confUser and == 'the section named stage<n> is the scope of stage n'; non-trivial = >= 2 "
-                "stage sections one of which is of a stage >= 10.")
+                "stage sections one of which is of a stage >= 10. (q) array: 1-2 array variables (2-4 or 11-13 blank separated "
+                "words, 30% built from another variable) and 0-2 integer index variables (25% through a chain), each "
+                "defined with DIFFERENT values by 1-3 random variable layers (+ decoys on another platform), used from "
+                "arguments / queue / a list option and from a variable of the component in 2-5 occurrences per text: "
+                "plain %(v)s, %(v)s[n] (n up to 10), %(v)s[%(i)s] in the orders plain-then-indexed (same variable), "
+                "indexed-then-plain, only plain, only indexed, mixed; 20% with an undefined array / index variable; "
+                "expectation = layering of the ORIGINAL document, every occurrence replaced by its own value; asked "
+                "directly, with keyword variants and through the flattened views; the model side is Tree.interpA over "
+                "the variables Tree.varsOf layered. (r) interpA: FlowIR.interpolate itself on such texts over flat "
+                "contexts (numbers / booleans as arrays, tab separated words, index out of range) == Tree.interpA and == "
+                "the occurrence-wise specification; non-trivial = >= 2 references.")
     ctx.assumptions = [
-        "generated strings contain no '[' (array access is not modelled) and no dotted variable names",
+        "outside the array streams generated strings contain no '[' and no dotted variable names; in the array "
+        "streams '[' occurs only as the index of a reference (no constant arrays `a b c[1]`, no file arrays), the values "
+        "of array variables are array-free, indices are in range except in the unit stream",
         "int()/float() literals are drawn from the documented subset (sign+digits; <=10 integer and <=4 fractional digits)",
         "at most one kind of error is injected per case (the model reports the first error in its own traversal order)",
         "components have command.interpreter = None (interpreter digestion not modelled)",
@@ -2429,6 +2731,9 @@ def run(ctx):
         # (c) chains
         for _ in range(300 if quick else 4000):
             cases.append(gen_chain(rng))
+        # (c') array-indexed references next to plain ones, over layered array / index variables
+        for _ in range(120 if quick else 1500):
+            cases.append(gen_array(rng))
         # (d) typed
         leaves = list(typed_leaves(table))
         if not quick:
@@ -2481,6 +2786,7 @@ def run(ctx):
         # (f) unit relations
         unit_override(ctx, rng, 400 if quick else 6000)
         unit_interp(ctx, rng, 600 if quick else 10000)
+        unit_array(ctx, rng, 500 if quick else 8000)
         unit_layer_files(ctx, rng, 150 if quick else 2500, tmpdir)
         unit_conf_loader(ctx, rng, 150 if quick else 2500, tmpdir)
         phases["units"], t0 = round(time.time() - t0, 1), time.time()
@@ -2566,6 +2872,8 @@ def replay(ctx, doc):
             ctx.case(case, nontrivial=True, tags=["kind:interp"])
             if mo is not None and mo[0].get("error") != "unsupported":
                 ctx.compare("FlowIR.interpolate == Tree.interp", case, mo[0], out)
+        elif kind == "interpA":
+            unit_array(ctx, None, 1, given=[case])
         elif kind == "variable-files":
             files = [from_json(f) for f in case["user"]]
             for f in files:
